@@ -145,3 +145,20 @@ PROPS['C05'] = {
                     'injectivity ("two different specific messages never share a wire encoding") is a corollary of the two left inverses; additionally checked directly by c05_distinct_messages_distinct_frames in the thorough tier'],
     'explanation': 'Message leg: loop-free Kani harness over every specific message (10 kinds x any u16 x 13 states x 6 operations x data of length 0..=255). Wire leg: the C01 obligations.',
 }
+
+PROPS['C02'] = {
+    'level': 'proof',
+    'verus': [{'tmpl': 'frame.rs.tmpl', 'obligations': FRAME_VERUS_ENC + ['Frame::from_bytes',
+               'lemma_c02_substitution', 'lemma_c02_deletion', 'lemma_c02_duplication', 'lemma_c02_transposition', 'lemma_c02_truncation',
+               'lemma_accepted_is_consistent', 'lemma_substitution', 'lemma_transposition_core', 'lemma_transposition_same_byte',
+               'lemma_transposition_two_bytes', 'lemma_swap_two_bytes_values', 'lemma_swap_shape', 'lemma_swap_two_bytes_bv',
+               'lemma_prefix_core', 'lemma_one_byte_changed', 'lemma_lrc_update', 'lemma_lrc_update2', 'lemma_lrc_moves', 'lemma_byte_change',
+               'lemma_payload_of_view', 'lemma_roundtrip', 'lemma_enc_chars', 'lemma_enc_format', 'lemma_dec_strip', 'lemma_no_strip',
+               'lemma_strip_appended', 'lemma_invalid_len', 'lemma_invalid_char', 'lemma_upper_hex_val_injective',
+               'lemma_shape_groups', 'lemma_group_names']}],
+    'tools': [{'kind': 'regexeq'}, {'kind': 'witness', 'domains': ['frame-decode'], 'bound': 'single-fault mutations (substitution by 14 bytes, deletion, duplication, swap, every prefix) at every position of 30 valid frames, with and without CRLF, plus the C03 enumeration'}],
+    'kani': [{'package': 'flipdot-core', 'harnesses': FRAME_KANI_CONTRACTS + [FRAME_KANI_BOUNDED[-1]]}],
+    'functions': FRAME_FNS,
+    'assumptions': [A_USIZE, A_COW, A_INTO, A_REGEX, A_CHUNKS, A_SPEC, A_TOOLS, A_DEBUG],
+    'explanation': 'C02 = five lemmas over the codec specification (every position x every replacement byte; every deletion; every duplication; every adjacent transposition of unequal characters; every proper prefix — each for enc(f) and enc(f)+CRLF, for every frame with <= 255 data bytes), transferred to the real code by the contracts to_bytes == enc, to_bytes_with_newline == enc+CRLF and from_bytes == dec; second sentence: lemma_accepted_is_consistent + contract D.',
+}
